@@ -331,13 +331,41 @@ func init() {
 			configs++
 			mu.Unlock()
 		})
+		// lists that yield nothing (empty, comment-only, ignored cosmetic rules) at
+		// every position among 1..4 lists
+		kinds := []struct {
+			seq []int
+			ic  bool
+		}{{[]int{0, 7}, false}, {nil, false}, {[]int{1, 3, 2}, false}, {[]int{5, 10}, true}, {[]int{8}, false}}
+		var shapes [][]int
+		for k := 1; k <= 4; k++ {
+			enum.Sequences(len(kinds), k, func(s []int) bool {
+				shapes = append(shapes, append([]int{}, s...))
+				return true
+			})
+		}
+		c.parallel(len(shapes), func(i int) {
+			var lists []c11List
+			var descs []any
+			for li, kd := range shapes[i] {
+				k := kinds[kd]
+				lists = append(lists, c11List{li + 1, mk(k.seq, false, true), k.ic})
+				descs = append(descs, map[string]any{"id": li + 1, "seq": append([]int{}, k.seq...), "crlf": false, "final": true, "ignore_cosmetic": k.ic})
+			}
+			e := c11Check(c, lists, map[string]any{"lists": descs}, map[string]any{"lists": descs})
+			mu.Lock()
+			evals += e
+			configs++
+			mu.Unlock()
+		})
+		c.Run.Set("list_shape_assignments", int64(len(shapes)))
 		c.Run.Set("line_symbols", int64(len(syms)))
 		c.Run.Set("contents", int64(len(seqs)*4))
 		c.Run.Set("id_assignments", int64(len(assigns)))
 		c.Run.Set("configurations", configs)
 		c.Run.Set("evaluations", evals)
 		c.Run.Set("distinct_nontrivial", configs)
-		c.Run.Set("rule", fmt.Sprintf("every content of <=%d lines over %d line kinds (valid/comment/blank/cosmetic/rejected/hosts/UTF-8/NUL/long lines of 4094..8193 bytes around the 4 KiB block boundaries) x LF/CRLF x final newline x IgnoreCosmetic x String/File backing; every injective assignment of ids from {0,1,-1,2,MaxInt32,MinInt32} to 1..4 lists; scan vs line-by-line reference, retrieval in reverse/forward/cold/cached order, String vs File engine answers; every configuration is distinct", maxLines, len(syms)))
+		c.Run.Set("rule", fmt.Sprintf("every content of <=%d lines over %d line kinds (valid/comment/blank/cosmetic/rejected/hosts/UTF-8/NUL/long lines of 4094..8193 bytes around the 4 KiB block boundaries) x LF/CRLF x final newline x IgnoreCosmetic x String/File backing; every injective assignment of ids from {0,1,-1,2,MaxInt32,MinInt32} to 1..4 lists; every assignment of 5 list shapes (rules, empty, comment-only, ignored cosmetic, one rule) to 1..4 lists; scan vs line-by-line reference, retrieval in reverse/forward/cold/cached order, String vs File engine answers; every configuration is distinct", maxLines, len(syms)))
 		c.Run.Set("exhaustive", exhaustive)
 		c.Run.Assumption("rules.NewRule is the line parser on both sides (the property is about scanner, index and stores)")
 		c.Run.Assumption("retrieval happens after the scan has finished; interleaving scan and retrieval on one file list is outside the quantifier")
